@@ -86,6 +86,8 @@ class Gen:
 
         def un(fmt, name, U):
             for s, d in A(U):
+                if name.startswith("member.") and "stmtexpr." in d:
+                    continue        # chibicc rejects member access on a statement expression ("not an lvalue")
                 out.append((fmt % s, "%s(%s)" % (name, d)))
 
         def bi(fmt, name, U1, U2, leaf_rhs=False):
@@ -109,7 +111,7 @@ class Gen:
                 if U != T:
                     un("((%s)%%s)" % CT[T], "cast.%s>%s" % (U, T), U)
             if T == "l":
-                un("((long)%s)", "cast.p>l", "p")
+                un("((long)%s - (long)gi)", "cast.p>l", "p")       # address-independent value
                 bi("(%s - %s)", "ptrdiff", "p", "p")
                 un("(%s.a)", "member.Sa", "S")
                 un("(%s.a[1])", "member.La", "L")
@@ -126,6 +128,10 @@ class Gen:
                         bi("(%%s %s %%s)" % op, OPNAME[op] + "." + U, U, U)
                     bi("(%s && %s)", "land." + U, U, U)
                     bi("(%s || %s)", "lor." + U, U, U)
+                for U in SCALAR:
+                    un("((_Bool)%s)", "cast.%s>b" % U, U)
+                for U in ARITH:
+                    un("((char)%s)", "cast.%s>c" % U, U)
                 for s, d in A("p"):
                     if d.split("(")[0].split(".")[0] in SAFE_DEREF:
                         out.append(("(*%s)" % s, "deref(%s)" % d))
@@ -153,7 +159,7 @@ class Gen:
                 out.append(("(&gi[3])", "addr"))
             bi("(%s + %s)", "padd", "p", "i")
             bi("(%s - %s)", "psub", "p", "i")
-            un("((int *)%s)", "cast.l>p", "l")
+            un("((int *)((long)gi + 4 * %s))", "cast.l>p", "l")
             for s, d in A("i"):
                 out.append(("(%s[%d] += %s)" % (GV[T], lv, s), "addasg.p(%s)" % d))
         if T in SCALAR:
@@ -169,8 +175,11 @@ class Gen:
                 out.append(("(--%s[%d])" % (GV[T], lv), "predec." + T))
                 out.append(("(%s[%d]++)" % (GV[T], lv), "postinc." + T))
                 out.append(("(%s[%d]--)" % (GV[T], lv), "postdec." + T))
+        if T in SCALAR:
+            un("((%s){%%s})" % CT[T], "complit." + T, T)
+            bi("(%s ?: %s)", "elvis." + T, T, T)
         if T != "v":
-            # assignment (chains are assign(assign(..))), call returning T with/without argument, compound literal
+            # assignment (chains are assign(assign(..))), call returning T with/without argument
             for s, d in A(T):
                 out.append(("(%s[%d] = %s)" % (GV[T], lv, s), "assign.%s(%s)" % (T, d)))
                 out.append(("id%s(%s)" % (T, s), "call.id%s(%s)" % (T, d)))
@@ -296,7 +305,7 @@ def jump_cases():
 
 def alloca_cases():
     out = []
-    forms = [("plain", "rp = (int *)(gna++, alloca(16));"),
+    forms = [("plain", "ri = (gna++, alloca(16)) != 0;"),
              ("pending-binop", "ri = gi[2] + *(int *)(gna++, alloca(16)) * 0;"),
              ("pending-arg", "ri = k2i((gna++, alloca(16)) != 0, gi[3]);"),
              ("pending-ld", "re = ge[2] + (long double)((gna++, alloca(32)) != 0);"),
@@ -341,6 +350,8 @@ def enumerate_cases(tier):
                 if size > max_all_ctx and cn == "exprstmt" and T != "v" and size >= 3:
                     continue
                 for text, desc in ex:
+                    if cn == "operandl" and T in "SL" and "stmtexpr." in desc:
+                        continue
                     add(cn, T, size, text, desc)
     for cid, T, cn, desc, build in jump_cases() + alloca_cases():
         cases.append({"id": cid, "ctx": cn, "T": T, "desc": desc, "size": 2, "E": None, "build": build})
@@ -358,6 +369,9 @@ X87_NONE = set("fchs fabs fadd fadds faddl fsub fsubs fsubl fsubr fsubrs fsubrl 
                "fdivrl fiadd fiadds fiaddl fisub fisubs fisubl fimul fimuls fimull fidiv fidivs fidivl fst fsts fstl fist fists "
                "fistl fxch fnstcw fstcw fldcw fnstsw fstsw fwait wait fcom fcoms fcoml fucom fcomi fucomi fsqrt frndint ftst "
                "fxam fnclex fclex".split())
+X87_REQ2 = set("faddp fsubp fsubrp fmulp fdivp fdivrp fcomip fucomip fcompp fucompp fxch fcomi fucomi fucom fucomp".split())
+X87_REQ0 = set("fnstcw fstcw fldcw fnstsw fstsw fwait wait fnclex fclex".split())
+X87_REQ1_NOOPS = set("fchs fabs fsqrt frndint ftst fxam".split())
 PLAIN = set("mov movabs movzx movzb movzbl movzbw movzwl movzbq movzwq movsbl movsbw movswl movsbq movswq movsxd movslq movsx "
             "movss movsd movd movq movaps movups movapd movupd movdqa movdqu lea add sub imul mul div idiv cqo cdq cqto cltd "
             "cltq cdqe cwde cwtl and or xor not neg shl shr sar sal rol ror cmp test inc dec nop xchg cmpxchg xadd stosb stosq "
@@ -492,6 +506,7 @@ class FnModel:
         self.probe_x87 = set()
         self.alloca_sites = 0
         self.has_backedge = False
+        self.underflow = False
 
     def fail(self, why):
         if self.unmodelled is None:
@@ -669,12 +684,21 @@ class FnModel:
         ops = x.ops
         if mn in X87_PUSH:
             return rsp, x87 + 1, rbp
-        if mn in X87_POP:
-            return rsp, x87 - 1, rbp
-        if mn in X87_POP2:
-            return rsp, x87 - 2, rbp
-        if mn in X87_NONE:
-            return rsp, x87, rbp
+        if mn in X87_POP or mn in X87_POP2 or mn in X87_NONE:
+            # operands read from the register stack: reading an empty register is an underflow (the machine then
+            # produces a NaN in the destination, which is what "x87 depth" measured from the tag word shows)
+            if mn in X87_REQ0:
+                req = 0
+            elif mn in X87_REQ2:
+                req = 2
+            elif mn in X87_REQ1_NOOPS or mn in X87_POP or any("(" in o for o in ops):
+                req = 1
+            else:
+                req = 2
+            if x87 < req:
+                self.underflow = True
+                x87 = req
+            return rsp, x87 - (1 if mn in X87_POP else 2 if mn in X87_POP2 else 0), rbp
         if mn.startswith("f"):
             return self.fail("unknown x87 mnemonic " + mn)
         if mn in ("push", "pushq", "pushfq", "pushf"):
@@ -770,6 +794,9 @@ class FnModel:
             if self.unmodelled:
                 return self
             rsp2, x2, rbp2 = r
+            if self.underflow:
+                viol.add("x87-underflow")
+                self.underflow = False
             if x2 < 0:
                 viol.add("x87-underflow")
                 x2 = 0
@@ -785,7 +812,16 @@ class FnModel:
         for v in self.probe_x87:
             if v != 0:
                 viol.add("x87-at-statement-boundary=%+d" % v)
-        self.viol = sorted(viol)
+        fam = {}
+        for t in viol:
+            m = re.match(r"^(.*?)[=(]([+-]\d+)\)?$", t)
+            if m:
+                k, v = m.group(1), int(m.group(2))
+                if k not in fam or abs(v) < abs(fam[k][0]):
+                    fam[k] = (v, t)
+            else:
+                fam[t] = (0, t)
+        self.viol = sorted(t for v, t in fam.values())
         return self
 
 
@@ -870,8 +906,10 @@ def dynamic_tokens(groups, loops, is_alloca):
     for g, n in zip(groups, [1, 2, 9] * 2):
         if g["pcount"] != n:
             t.add("probe-count")
-    if any(g["pmax"] for g in groups):
+    x87seen = bool(x1)
+    if any(g["pmax"] for g in groups) and not x87seen:
         t.add("x87-at-statement-boundary")
+        x87seen = True
     for lp, n in zip(loops, (1, 1000)):
         if lp["pcount"] != n:
             t.add("probe-count")
@@ -883,11 +921,12 @@ def dynamic_tokens(groups, loops, is_alloca):
                                     -lp["drift"] <= 32 * (n - 1) * per):
                 exp = lp["drift"]
         if lp["drift"] != exp or (not is_alloca and (lp["dmin"] or lp["dmax"])):
-            t.add("rsp-drift-in-loop=%+d/%dit" % (lp["drift"], n))
-        if lp["x87max"] or lp["x87first"]:
+            if n > 1 and lp["pcount"] == n and lp["drift"] % (n - 1) == 0:
+                t.add("rsp-drift-in-loop=%+d/iteration" % (lp["drift"] // (n - 1)))
+            else:
+                t.add("rsp-drift-in-loop=%+d/%dit" % (lp["drift"], n))
+        if (lp["x87max"] or lp["x87first"] or lp["x87"]) and not x87seen:
             t.add("x87-in-loop")
-        if lp["x87"] and "x87-per-call=%+d" % lp["x87"] not in t:
-            t.add("x87-after-loop")
     return sorted(t)
 
 
@@ -897,7 +936,12 @@ def run_batch(args):
     chibicc, wd, name, keys, rt_objs, tier = args
     cases_all = CASES_BY_KEY
     cases = [(k, cases_all[k]["build"]) for k in keys]
-    return _run_cases(chibicc, wd, name, cases, rt_objs)
+    try:
+        return _run_cases(chibicc, wd, name, cases, rt_objs)
+    finally:
+        if not os.environ.get("VERIF_C20_KEEP"):
+            import shutil
+            shutil.rmtree(wd, ignore_errors=True)
 
 
 def _compile_filtering(compile_fn, wd, name, cases, on_reject):
@@ -946,7 +990,7 @@ def _compile_filtering(compile_fn, wd, name, cases, on_reject):
 
 
 def _run_cases(chibicc, wd, name, cases, rt_objs, depth=0):
-    out = {"results": {}, "ref_rejected": 0, "cc_fail": [], "batches": 1}
+    out = {"results": {}, "ref_rejected": 0, "cc_fail": [], "batches": 1, "callees": {}}
     os.makedirs(wd, exist_ok=True)
     if not cases:
         return out
@@ -999,7 +1043,14 @@ def _run_cases(chibicc, wd, name, cases, rt_objs, depth=0):
         for fn, ld in fns:
             callee_ld["cc_" + fn] = ld
             ret_ld["cc_" + fn] = ld
+    for k2, v in BASE_CALLEES.items():
+        ret_ld["cc_" + k2] = bool(v)
     models = model_file(asm, ret_ld, callee_ld)
+    out["callees"] = {}
+    for k2 in BASE_CALLEES:
+        m = models.get("cc_" + k2)
+        if m is not None:
+            out["callees"][k2] = {"static": m.viol, "unmodelled": m.unmodelled, "states": m.states, "transitions": m.transitions}
     # ---- execution records ----
     recs = {}
     for line in r["stdout"].split("\n"):
@@ -1050,7 +1101,8 @@ def _run_cases(chibicc, wd, name, cases, rt_objs, depth=0):
         res["static"] = sorted(set(res["static"]))
         res["pred_ok"] = pred_ok
         if k in crashed:
-            res["dynamic"] = ["crash(status=%s)" % crashed[k]]
+            res["dynamic"] = ["crash-" + ("signal%d" % -crashed[k] if isinstance(crashed[k], int) and crashed[k] < 0
+                                         else "timeout" if crashed[k] == "timeout" else "exit%s" % crashed[k])]
             res["measured"] = None
         elif k in recs:
             groups, loops = recs[k]
@@ -1060,6 +1112,22 @@ def _run_cases(chibicc, wd, name, cases, rt_objs, depth=0):
         else:
             res["dynamic"] = ["no-record"]
             res["measured"] = None
+        # model prediction against the machine (decided here so that clean cases need not carry their measurements)
+        m = res["measured"]
+        res["ldbad"] = bool(m and not all(m["ldok"]))
+        res["validated"] = res["mismatch"] = False
+        if m and res["pred_ok"] and not res["unmodelled"]:
+            pred_rsp_clean = not any(t.startswith("rsp") for t in res["static"])
+            meas_rsp_clean = not any(t.startswith("rsp") for t in res["dynamic"])
+            if res["pred_x87"] == m["x87_n1"][0] == m["x87_n1"][1] and pred_rsp_clean == meas_rsp_clean:
+                res["validated"] = True
+            elif not res["static"] and not res["dynamic"]:
+                res["validated"] = True
+            else:
+                res["mismatch"] = True
+        if not res["static"] and not res["dynamic"] and not res["unmodelled"] and res["validated"] and not res["ldbad"] and k >= 2:
+            # clean, validated case: compact record (states, transitions, functions, functions with loops, alloca sites)
+            res = (res["states"], res["transitions"], res["fns"], res["loops"], res["alloca_sites"])
         out["results"][key] = res
     return out
 
@@ -1067,55 +1135,122 @@ def _run_cases(chibicc, wd, name, cases, rt_objs, depth=0):
 CASES_BY_KEY = {}
 
 
-def sig_for(case, res, results, cases_by_id):
-    """Canonical class signature: attribute the anomaly to the consumption context if the plain variable of that
-    type shows it in the same context, else to the smallest sub-expression that shows it in the neutral context."""
-    dev = ",".join(["S:" + t for t in res["static"]] + ["D:" + t for t in res["dynamic"]])
+def devs(r):
+    return ["S:" + t for t in r["static"]] + ["D:" + t for t in r["dynamic"]]
+
+
+CONSEQUENCE = "D:result-differs-from-gcc-twin"     # also a downstream effect of every x87 anomaly
+
+
+def root_causes(case, res, results):
+    """Attribute the anomalies of one case to the simplest enumerated cases that show them:
+      - the consumption context, if the plain variable of that type shows them in the same context
+      - the smallest sub-expression that shows them in the neutral context (`T v = E`)
+    -> list of (class label, deviation string); anomalies nothing simpler explains are attributed to the case itself."""
+    own = devs(res)
     ctx, T, desc = case["ctx"], case["T"], case["desc"]
-    if ctx in ("jump", "alloca"):
-        return "C20|%s|%s|%s|%s" % (ctx, desc, T, dev)
+    if ctx == "jump":
+        # one root cause per jump kind: the magnitude only reflects how many temporaries were pending
+        kind = desc.split("/")[0]
+        cls = set()
+        for t in own:
+            if "rsp" in t:
+                cls.add("leaks=rsp")
+            elif "x87" in t:
+                cls.add("leaks=x87")
+            elif t != CONSEQUENCE:
+                cls.add(re.sub(r"[=(][-+]?\d+\)?", "", t))
+        cls = sorted(cls) or own
+        return [(("jump-out-of-stmtexpr|%s" % kind) if kind != "none" else "stmtexpr-without-jump|%s|%s" % (desc, T), ",".join(cls))]
+    if ctx == "alloca":
+        return [("%s|%s" % (ctx, desc), ",".join(own))]
 
     def dev_of(cid):
         r = results.get(cid)
-        if not r or "skip" in r:
-            return None
-        return ",".join(["S:" + t for t in r["static"]] + ["D:" + t for t in r["dynamic"]])
-    if desc != "v" and dev_of("%s/%s/v" % (ctx, T)) == dev:
-        return "C20|ctx=%s|ty=%s|%s" % (ctx, T, dev)
-    # smallest failing sub-expression in the neutral context
-    best = None
+        if not r or isinstance(r, tuple) or "skip" in r:
+            return []
+        return devs(r)
+    causes = []
+    explained = set()
+    if desc not in ("v", "c"):
+        d = dev_of("%s/%s/v" % (ctx, T))
+        if d:
+            causes.append(("ctx=%s|ty=%s" % (ctx, T), ",".join(d)))
+            explained |= set(d)
+    cands = []
     for sub, st in subexprs(desc):
-        if sub == desc:
+        if st is None:
             continue
-        for nctx in ("init", "exprstmt"):
-            d = dev_of("%s/%s/%s" % (nctx, st, sub)) if st else None
+        # the form itself with plain operands (its "skeleton"), then the sub-expression as it stands
+        for shape in (skeleton(sub), sub):
+            if shape == desc and ctx == ("init" if st != "v" else "exprstmt"):
+                continue
+            d = dev_of("init/%s/%s" % (st, shape)) if st != "v" else dev_of("exprstmt/v/%s" % shape)
             if d:
-                if best is None or len(sub) < len(best[0]):
-                    best = (sub, st, d)
-    if best and best[2] and set(best[2].split(",")) & set(dev.split(",")):
-        return "C20|form=%s|%s" % (best[0], best[2])
-    if ctx in ("init",):
-        return "C20|form=%s|%s" % (desc, dev)
-    return "C20|ctx=%s|form=%s|%s" % (ctx, desc, dev)
+                cands.append((len(sub), sub, shape, d))
+                break
+    cands.sort()
+    kept = []
+    for n, sub, shape, d in cands:
+        if any(k in sub for k in kept):
+            continue                    # a smaller failing sub-expression inside this one already explains it
+        kept.append(sub)
+        if ("form=%s" % shape, ",".join(d)) not in causes:
+            causes.append(("form=%s" % shape, ",".join(d)))
+        explained |= set(d)
+    rest = [t for t in own if t not in explained and not (t == CONSEQUENCE and explained)]
+    if rest and not causes:
+        if desc in ("v", "c"):
+            causes.append(("ctx=%s|ty=%s" % (ctx, T), ",".join(own)))
+        elif ctx == "init":
+            causes.append(("form=%s" % desc, ",".join(own)))
+        else:
+            causes.append(("ctx=%s|form=%s" % (ctx, desc), ",".join(rest)))
+    return causes
+
+
+def skeleton(sub):
+    """head(v,..,v): the top-level form of a descriptor with plain variables as operands"""
+    i = sub.find("(")
+    if i < 0:
+        return sub
+    depth = 0
+    n = 1
+    for ch in sub[i + 1:-1]:
+        if ch == "(":
+            depth += 1
+        elif ch == ")":
+            depth -= 1
+        elif ch == "," and depth == 0:
+            n += 1
+    return sub[:i] + "(" + ",".join(["v"] * n) + ")"
 
 
 def subexprs(desc):
-    """yield (sub-descriptor, type letter or None) for every composite sub-expression of a descriptor"""
+    """-> [(sub-descriptor, result type letter or None)] for every composite sub-expression (the whole included)"""
     out = []
-    stack = []
-    for i, ch in enumerate(desc):
-        if ch == "(":
-            j = i
-            while j > 0 and desc[j - 1] not in "(,":
-                j -= 1
-            stack.append(j)
-        elif ch == ")":
-            j = stack.pop()
-            out.append(desc[j:i + 1])
-    res = []
-    for s in out:
-        res.append((s, desc_type(s)))
-    return res
+
+    def term(i):
+        j = i
+        while j < len(desc) and desc[j] not in "(),":
+            j += 1
+        k = j
+        if k < len(desc) and desc[k] == "(":
+            k += 1
+            while True:
+                k = term(k)
+                if desc[k] == ",":
+                    k += 1
+                    continue
+                if desc[k] == ")":
+                    k += 1
+                    break
+        t = desc[i:k]
+        if t not in ("v", "c"):
+            out.append(t)
+        return k
+    term(0)
+    return [(t, desc_type(t)) for t in out]
 
 
 def desc_type(d):
@@ -1126,7 +1261,7 @@ def desc_type(d):
                 "bfpostinc", "bfpredec"):
         return "l" if t == "z" else "i"
     if name == "cast":
-        return t.split(">")[1]
+        return {"b": "i", "c": "i"}.get(t.split(">")[1], t.split(">")[1])
     if name in ("ptrdiff",):
         return "l"
     if name == "member":
@@ -1166,6 +1301,10 @@ def replay_main(d, chibicc):
     if o["cc_fail"]:
         print("chibicc fails on the case:", o["cc_fail"][0][1:4])
         return 1 if info["expect"] == "cc-fail" else 0
+    if info["expect"].startswith("callee:"):
+        m = o["callees"].get(info["expect"][7:], {})
+        print(json.dumps(m))
+        return 1 if m.get("static") else 0
     r = o["results"].get(key, {})
     print(json.dumps({k: r.get(k) for k in ("static", "dynamic", "unmodelled", "measured")}))
     got = set(["S:" + t for t in r.get("static", [])] + ["D:" + t for t in r.get("dynamic", [])])
@@ -1204,6 +1343,7 @@ def run(ctx):
     ref_rejected = 0
     cc_fail = []
     done_batches = 0
+    callees = {}
     # run in waves so that the deadline can stop the enumeration between waves
     wave = core.NPROC * 2
     for w in range(0, len(args), wave):
@@ -1215,11 +1355,27 @@ def run(ctx):
             ref_rejected += o["ref_rejected"]
             cc_fail += o["cc_fail"]
             done_batches += 1
-    judge(ctx, cases, results, ref_rejected, cc_fail)
+            if not callees:
+                callees = o["callees"]
+            elif o["callees"] and json.dumps(o["callees"], sort_keys=True) != json.dumps(callees, sort_keys=True):
+                raise core.HarnessError("the shared callees were compiled differently in different batches")
+    judge(ctx, cases, results, ref_rejected, cc_fail, callees)
 
 
-def judge(ctx, cases, results, ref_rejected, cc_fail):
+def judge(ctx, cases, results, ref_rejected, cc_fail, callees):
     by_id = {c["id"]: c for c in cases}
+    # the shared callees (every return class, 0..8 parameters) are model-checked once
+    callee_states = callee_unmodelled = 0
+    for name, m in sorted(callees.items()):
+        callee_states += m["states"]
+        if m["unmodelled"]:
+            callee_unmodelled += 1
+        if m["static"]:
+            ctx.violation("C20|callee=%s|%s" % (name, ",".join("S:" + t for t in m["static"])),
+                          "shared callee %s of harness/c20_unit.h: model %s" % (name, m["static"]),
+                          files={"case.c": "int FN(c0)(void) { P; return 0; }\n",
+                                 "case.json": json.dumps({"id": "callee/" + name, "fns": [["c0", False]], "expect": "callee:" + name})},
+                          replay=REPLAY_SH)
     states = transitions = validated = fns = 0
     unmodelled = 0
     unmodelled_why = {}
@@ -1240,6 +1396,16 @@ def judge(ctx, cases, results, ref_rejected, cc_fail):
         r = results.get(c["id"])
         if r is None:
             continue
+        if isinstance(r, tuple):
+            judged += 1
+            clean += 1
+            validated += 1
+            states += r[0]
+            transitions += r[1]
+            fns += r[2]
+            loops += r[3]
+            alloca_sites += r[4]
+            continue
         if "skip" in r:
             continue
         judged += 1
@@ -1253,19 +1419,9 @@ def judge(ctx, cases, results, ref_rejected, cc_fail):
             for w in r["unmodelled"]:
                 w = re.sub(r"[-\d]+\(%rbp\)|\$\d+", "N", w)
                 unmodelled_why[w] = unmodelled_why.get(w, 0) + 1
-        m = r["measured"]
-        if m and m["ldok"] and not all(m["ldok"]):
-            ld_corrupt += 1
-        # model prediction against the machine
-        if m and r["pred_ok"] and not r["unmodelled"]:
-            pred_rsp_clean = not any(t.startswith("rsp") for t in r["static"])
-            meas_rsp_clean = not any(t.startswith("rsp") for t in r["dynamic"])
-            if r["pred_x87"] == m["x87_n1"][0] == m["x87_n1"][1] and pred_rsp_clean == meas_rsp_clean:
-                validated += 1
-            elif not r["static"] and not r["dynamic"]:
-                validated += 1
-            else:
-                pred_mismatch += 1
+        ld_corrupt += 1 if r["ldbad"] else 0
+        validated += 1 if r["validated"] else 0
+        pred_mismatch += 1 if r["mismatch"] else 0
         if not r["static"] and not r["dynamic"]:
             clean += 1
             continue
@@ -1275,37 +1431,46 @@ def judge(ctx, cases, results, ref_rejected, cc_fail):
             static_only += 1
         else:
             dynamic_only += 1
-        sig = sig_for(c, r, results, by_id)
         src, fl = c["build"]("0")
-        expect = ",".join(["S:" + t for t in r["static"]] + ["D:" + t for t in r["dynamic"]])
+        expect = ",".join(devs(r))
         desc = ("%s: model %s; machine %s; measured %s" % (c["id"], r["static"] or "clean", r["dynamic"] or "clean", r["measured"]))
         if c["E"]:
             desc += "; expression `%s` of type %s in context %s" % (c["E"], CT[c["T"]], c["ctx"])
-        ctx.violation(sig, desc,
-                      files={"case.c": src, "case.json": json.dumps({"id": c["id"], "fns": fl, "expect": expect, "sig": sig})},
-                      replay=REPLAY_SH)
+        for label, dev in root_causes(c, r, results):
+            sig = "C20|%s|%s" % (label, dev)
+            ctx.violation(sig, desc,
+                          files={"case.c": src, "case.json": json.dumps({"id": c["id"], "fns": fl, "expect": expect, "sig": sig})},
+                          replay=REPLAY_SH)
     if judged == 0 or states == 0 or validated == 0:
         raise core.HarnessError("vacuous run: judged=%d states=%d validated=%d" % (judged, states, validated))
     if loops < judged // 2:
         raise core.HarnessError("vacuous model: only %d of %d functions contain a back edge" % (loops, fns))
     if unmodelled > judged // 4:
         raise core.HarnessError("model vocabulary lost: %d of %d cases unmodelled: %s" % (unmodelled, judged, unmodelled_why))
+    if os.environ.get("VERIF_C20_DUMP"):
+        with open(os.environ["VERIF_C20_DUMP"], "w") as f:
+            json.dump({"results": results, "cc_fail": cc_fail}, f)
     by_ctx = {}
     by_size = {}
     for c in cases:
         if c["id"] in results:
             by_ctx[c["ctx"]] = by_ctx.get(c["ctx"], 0) + 1
             by_size[str(c["size"])] = by_size.get(str(c["size"]), 0) + 1
-    ctx.cover(states=states, transitions=transitions, traces_validated_against_impl=validated, cases=judged, functions_modelled=fns,
+    ctx.cover(callee_functions_modelled=len(callees), callee_states=callee_states, callee_unmodelled=callee_unmodelled)
+    ctx.cover(states=states + callee_states, transitions=transitions, traces_validated_against_impl=validated, cases=judged, functions_modelled=fns,
               functions_with_loops=loops, unmodelled_cases=unmodelled, unmodelled_reasons=unmodelled_why,
               model_vs_machine_disagreements=pred_mismatch, clean_cases=clean, anomalous_static_and_dynamic=both,
               anomalous_static_only=static_only, anomalous_dynamic_only=dynamic_only, later_long_double_corrupted_cases=ld_corrupt,
               ref_rejected=ref_rejected, cc_fail=len(cc_fail), alloca_idiom_sites=alloca_sites, cases_by_context=by_ctx,
               cases_by_size=by_size, executions_per_case="N=1,2,9 calls x gc=0,1 (loop count 1) + loop counts 1 and 1000",
               rule=RULE[ctx.tier])
-    for c in (cases[0], cases[len(cases) // 3], cases[len(cases) // 2], cases[-40], cases[-3]):
+    nsamp = 0
+    for c in cases:
         r = results.get(c["id"])
-        if r and "skip" not in r:
+        if nsamp >= 6:
+            break
+        if r and not isinstance(r, tuple) and "skip" not in r and r.get("measured") and (nsamp < 2 or r["static"] or c["ctx"] == "alloca"):
+            nsamp += 1
             ctx.sample({"case": c["id"], "source": c["build"]("0")[0], "model": {"states": r["states"], "transitions": r["transitions"],
                         "anomalies": r["static"], "unmodelled": r["unmodelled"], "predicted_x87_per_call": r["pred_x87"]},
                         "machine": {"anomalies": r["dynamic"], "measured": r["measured"]}})
